@@ -11,7 +11,7 @@ from ..ini import Ini
 from ..model import AnalysisError, FunctionInfo, bind_args
 from ..roles import roles_of
 from ..symb import Translator, Untranslatable, is_zero
-from ..terms import call_name, canon, const_num, guard_canon, norm_stmt
+from ..terms import call_name, canon, conjuncts, const_num, guard_canon, guard_of, norm_stmt
 from .common import iter_stores, kw, reaching_assignments, self_attr_of
 from .points import FilterSummary, PointAnalysis
 
@@ -80,11 +80,19 @@ def _hedge_reward_rule(ctx, prog, hcls):
             full = deref_expr(prog, fn, v)
             used = sorted({x.id for x in ast.walk(full) if isinstance(x, ast.Name) and x.id in predicted})
             g = guard_canon(prog, fn, st)
-            missing = []
-            for q in used:
-                okq = any(c == f"np.isfinite({q})" or c.startswith(f"({q} == ") or (c.endswith(f" == {q})") and c.startswith("(")) for c in g)
-                if not okq:
-                    missing.append(q)
+            finite, equal = set(), set()
+            for t_, pol_ in guard_of(prog, fn, st):
+                for c_, p_ in conjuncts(t_, pol_):
+                    if not p_:
+                        continue
+                    # np.isfinite(q) / math.isfinite(q) / np.all(np.isfinite([q, r])) / np.isfinite(q + r) ...
+                    for call in [x for x in ast.walk(c_) if isinstance(x, ast.Call) and call_name(x) in ("np.isfinite", "math.isfinite", "isfinite")]:
+                        finite |= {x.id for a_ in call.args for x in ast.walk(a_) if isinstance(x, ast.Name)}
+                    if isinstance(c_, ast.Compare) and len(c_.ops) == 1 and isinstance(c_.ops[0], ast.Eq):
+                        for a_, b_ in ((c_.left, c_.comparators[0]), (c_.comparators[0], c_.left)):
+                            if isinstance(a_, ast.Name) and const_num(b_) is not None:
+                                equal.add(a_.id)
+            missing = [q for q in used if q not in finite and q not in equal]
             # tabled: deterministic estimate (sd == 0): f is then an observed value, finite by the target-value checks (C10)
             if missing and call_name(full) in ("np.maximum", "max") and any(const_num(a) == 0 for a in full.args) and any(c.endswith(" == 0)") or c.startswith("(0 == ") for c in g) and len(missing) == 1:
                 ctx.ok(fn, st, f"tabled: {rn} = max(0, .) on the zero-SD branch uses the observed value ({missing[0]})")
